@@ -41,7 +41,7 @@ VARS = ['x', 'y']
 
 def bounds(tier):
     return {'program_depth': 2, 'triples': 2500 if tier == 'quick' else 60000, 'loop_unrolling_K': 3 if tier == 'quick' else 5,
-            'printed_conditions': 'all arithmetic expressions of depth <= 2 over x y 1 (2673) + boolean combinations (600 / 20000 seeded)',
+            'printed_conditions': 'all arithmetic expressions of depth <= 2 over x y 1 (2673) + boolean combinations (600 / 20000 seeded: half fixed shapes, half random nestings of & | --> ~ if-then-else to depth 3)',
             'eval_Sem_programs': 150 if tier == 'quick' else 3000}
 
 
@@ -407,7 +407,21 @@ def run_printed(u, out):
         rnd = random.Random('c20p-%s-%s' % (seed, lo))
         atoms = CONDS + [B('==', e, C0) for e in rnd.sample(arith_exprs(), 6)]
         items = []
-        for _ in range(hi - lo):
+
+        def tree(depth):
+            # uniformly nested connectives: every connective (incl. if-then-else) in every argument position of every other
+            if depth == 0 or rnd.random() < 0.3:
+                return rnd.choice(atoms)
+            k = rnd.choice(['&', '|', '-->', '~', 'ite'])
+            if k == '~':
+                return ('u', '~', tree(depth - 1))
+            if k == 'ite':
+                return ('ite', tree(depth - 1), tree(depth - 1), tree(depth - 1))
+            return B(k, tree(depth - 1), tree(depth - 1))
+        for n in range(hi - lo):
+            if n % 2:
+                items.append(tree(3))
+                continue
             a, b, c = rnd.choice(atoms), rnd.choice(atoms), rnd.choice(atoms)
             items.append(rnd.choice([B('&', a, B('|', b, c)), B('|', B('&', a, b), c), B('-->', B('-->', a, b), c), B('-->', a, B('-->', b, c)), ('u', '~', B('&', a, b)),
                                      B('&', ('u', '~', a), b), B('|', a, B('&', b, c)), B('&', B('|', a, b), c), B('-->', B('&', a, b), B('|', b, c)),
